@@ -1347,6 +1347,52 @@ def rule_optimaleval(ctx):
                             bad = bad or (inputs, output, sizes, oname, outer, f"{left} tensors are left")
                         elif got != want:
                             bad = bad or (inputs, output, sizes, oname, outer, f"the merges {pairs} cost {got}, the best tree costs {want}")
+        # the public finder end to end (construction, the simplifications - no-ops under the premise -, the DP per
+        # component, joining): same networks, plus variants with an index of dimension 1 and with an output index
+        # carried by all tensors but one (the premise still holds for them)
+        wf = ctx.p.func(C.BASIC, "optimize_optimal")
+        allfs = {g.name: g.node for g in m.all_funcs if g.cls is None}
+        classes = {"ContractionProcessor": {n_: f_.node for n_, f_ in cp.methods.items()}}
+        more = [
+            (("bd", "c", "ad", "b", "ace"), "e", dict(a=1, b=2, c=3, d=2, e=2)),
+            (("cf", "bf", "ade", "abcdf"), "ade", dict(a=2, b=2, c=3, d=2, e=2, f=1)),
+            (("ax", "x", "abx", "b"), "x", dict(a=2, b=3, x=2)),
+        ]
+        if wf is not None:
+            for inputs, output, sizes in nets + more:
+                if any(len(set(t)) != len(t) for t in inputs):
+                    continue
+                legs, app, sz = _net_tables(inputs, output, sizes)
+                for oname, factor in objectives:
+                    base = oname.split("-")[0]
+                    for outer in (False, True):
+                        want = _best_by_enumeration(tuple(legs), tuple(app), tuple(sz), base, factor or 0, outer)
+                        if want is None:
+                            continue
+                        n += 1
+                        fname = {"flops": "compute_con_cost_flops", "max": "compute_con_cost_max", "size": "compute_con_cost_size",
+                                 "write": "compute_con_cost_write", "combo": "compute_con_cost_combo", "limit": "compute_con_cost_limit"}[base]
+                        ext = {"parse_minimize_for_optimal": lambda mn, _f=fname, _k=factor: ("minifn", _f, ({"factor": _k} if _k is not None else {}))}
+                        try:
+                            path = Mini(allfs, budget=3_000_000, externals=ext, classes=classes).call(
+                                wf.node, [tuple(tuple(t) for t in inputs), tuple(output), dict(sizes)],
+                                {"minimize": oname, "search_outer": outer, "use_ssa": True})
+                        except Raised as e:
+                            bad = bad or (inputs, output, sizes, oname, outer, f"optimize_optimal raises ({e.text})")
+                            continue
+                        except NoEval:
+                            raise
+                        except Exception as e:
+                            bad = bad or (inputs, output, sizes, oname, outer, f"optimize_optimal raises ({type(e).__name__}: {e})")
+                            continue
+                        if any(len(stp) != 2 for stp in path):
+                            bad = bad or (inputs, output, sizes, oname, outer, f"optimize_optimal pre-simplifies a network that has nothing to simplify: {list(path)}")
+                            continue
+                        got, left = _value_of_pairs([tuple(stp) for stp in path], legs, app, sz, base, factor or 0)
+                        if left != 1:
+                            bad = bad or (inputs, output, sizes, oname, outer, f"optimize_optimal leaves {left} tensors")
+                        elif got != want:
+                            bad = bad or (inputs, output, sizes, oname, outer, f"optimize_optimal returns {list(path)} costing {got}, the best tree costs {want}")
     except NoEval as e:
         raise AnalysisError(f"optimize_optimal_connected: not evaluable by the mini-evaluator ({e})")
     if bad:
